@@ -24,6 +24,12 @@ Same(name, def, got, want, scale, wit) ==
 Fixed(name, flag, got, in) ==
   IF flag THEN Same(name, TRUE, got, in, RAbs(in), [figure |-> name]) ELSE V0
 
+\* end-use equipment costs the user may supply directly (0 is a cost, only the documented sentinel means "not provided")
+Equip == IF "equip" \in DOMAIN T THEN T.equip ELSE << >>
+EquipClauses == VAll([j \in 1..Len(Equip) |->
+                       Same("C03_given_equipment", Equip[j].applies, Equip[j].got, Equip[j].given, RAdd(RAbs(Equip[j].given), "1e-6"),
+                            [figure |-> Equip[j].name])])
+
 StageClauses(st) ==
   CASE st = "wells" ->
          VAll(<< Same("C03_wellfield", TRUE, c.cwell, WellField(c), RAbs(WellField(c)),
@@ -38,7 +44,8 @@ StageClauses(st) ==
                  Fixed("C03_fixed_expl", c.explfixed /\ ~c.totalcap, c.cexpl, c.in_expl),
                  Fixed("C03_fixed_oamwell", c.oamwellfixed /\ ~c.totaloam, c.coamwell, c.in_oamwell),
                  Fixed("C03_fixed_oamplant", c.oamplantfixed /\ ~c.totaloam, c.coamplant, c.in_oamplant),
-                 Fixed("C03_fixed_oamwater", c.oamwaterfixed /\ ~c.totaloam, c.coamwater, c.in_oamwater) >>)
+                 Fixed("C03_fixed_oamwater", c.oamwaterfixed /\ ~c.totaloam, c.coamwater, c.in_oamwater),
+                 EquipClauses >>)
     [] st = "capex" ->
          Same(IF c.totalcap THEN "C03_capex_override" ELSE "C03_capex_sum", TRUE, c.ccap, Capex(c), CapexScale(c),
               [total_given |-> c.totalcap, itc |-> c.itcgiven])
